@@ -1,7 +1,7 @@
 """C01 — Incremental builds are never stale (target.go, function.go, sourceFile.go, project.go, project_index.go)."""
 import build_common
 
-RULE = ("histories of 14 (quick) / 18 (thorough) operations on generated projects (1-4 packages, 3-12 targets, sources, source directories, generated files consumed as sources, helper module, closures / defaults / globals): uniform edits and builds mixed with the templates edit→sub-closure build→root build, fail→fix→partial build, crash after a record→rebuild, code edit→crash between body and record→revert→build, delete generated→build dependent, rename in a source directory. Every operation runs in a fresh child process (Load → Run). Judge: after EVERY successful build the generated files of the built closure equal, byte for byte, those of a from-scratch build of a copy of the tree. Correspondence: per operation the model's executed / evaluated / up-to-date / failed sets, result, record files (decoded, stamps compared as a partition), generated files present, temporaries and index state equal the real engine's; dirSum equality on real directories vs the model's canonical listing.")
+RULE = ("histories of 14 (quick) / 18 (thorough) operations on generated projects (1-4 packages, 3-12 targets, sources, source directories, generated files consumed as sources, helper module, closures / defaults / globals): uniform edits and builds mixed with the templates edit→sub-closure build→root build, fail→fix→partial build, crash after a record→rebuild, code edit→crash between body and record→revert→build, delete generated→build dependent, rename in a source directory. Every operation runs in a fresh child process (Load → Run). Judge: after EVERY successful build the generated files of the built closure equal, byte for byte, those of a from-scratch build of a copy of the tree. Correspondence: per operation the model's executed / evaluated / up-to-date / failed sets, result, record files (decoded, stamps compared as a partition), generated files present, temporaries and index state equal the real engine's; dirSum equality on real directories vs the model's canonical listing. Projects include multi-output generators (2-3 `generates` entries, some outputs nobody's source) and consumers that reach a generator only through `sources=[generated file]` with the consumed output declared after an unconsumed one (template: edit the generator's input, build the consumer).")
 
 
 def run(c):
